@@ -48,7 +48,13 @@ func main() {
 		"window, free-running or with the first committer held in its manifest write until the others queue behind it; " +
 		"then the family's obsolete-file cleanup; the running store is read after the commits returned); every image is recovered with the real " +
 		"kv.CreateStore and compared with the ledger. Non-trivial = image strictly inside an operation (taken after " +
-		"the operation's first and before its last file-system event); distinct by (history, image content hash).")
+		"the operation's first and before its last file-system event); distinct by (history, image content hash). " +
+		"iofault histories (iofault.go): the process lives, ONE file-system step of a flush / a compaction / a reopen answers with " +
+		"ENOSPC/EIO (table create, key/value write, footer write, final flush+close of a table with half / none / all of the bytes " +
+		"in the file, manifest create / write / flush half or not at all, CURRENT.tmp write, rename; 6 fixed strata + a seed-rotated " +
+		"slice of 23 in quick, all in thorough); a flush that answered with an error must be invisible and must have destroyed " +
+		"nothing, one that answered success must be fully visible - on the running store (after the operation, after cleanup, after " +
+		"later operations, after reopen) and on every later crash image.")
 	c.Assume("a killed process loses user-space buffers and keeps what the kernel has: the directory as read(2) shows it between two operations is a crash state")
 	c.Assume("granularity is the seam: writes inside ltoml.EncodeToml and lockers.FileLock are not split; power loss (un-fsynced page cache) is out of scope")
 	c.Assume("fsync(2) of buffered writers is skipped by the harness wrapper (bytes still reach the kernel): irrelevant under the process-kill fault model")
@@ -75,6 +81,18 @@ func main() {
 	}
 	if !c.Quick() {
 		jobs = append(jobs, job{nHist + nBig, "bigtable"})
+	}
+	// iofault histories: one failing file-system step each (iofault.go); the plan is a function of (seed, k)
+	nFault := c.Pick(12, 116)
+	var fjobs []job
+	for k := 0; k < nFault; k++ {
+		fjobs = append(fjobs, job{nHist + 10 + k, fmt.Sprintf("iofault:%d", k)})
+	}
+	if c.Quick() {
+		// the short ones last: they fill the tail of the schedule
+		jobs = append(jobs, fjobs...)
+	} else {
+		jobs = append(fjobs, jobs...)
 	}
 	results := make([]*childResult, len(jobs))
 	workers := runtime.NumCPU()
@@ -152,6 +170,15 @@ func main() {
 	}
 	if n := c.Counter("live.running-store-after-concurrent-commits.family_states_compared"); n < int64(c.Pick(16, 100)) && c.Violations() == 0 {
 		c.Inconclusive("the running store was compared with the ledger after only %d commit convoys", n)
+	}
+	// the failing final write of a table (what a full disk does to a flush / a compaction output) must have been injected
+	for _, op := range []string{"flush", "compact"} {
+		if n := c.Counter("iofault.fired_final_table_write_truncated." + op); n < 2 {
+			c.Inconclusive("only %d histories in which the final write of a table of a %s failed (truncated table)", n, op)
+		}
+	}
+	if n := c.Counter("iofault.fired"); n < int64(c.Pick(8, 70)) {
+		c.Inconclusive("only %d iofault histories reached their failing step", n)
 	}
 	if c.Counter("images_strictly_inside_an_operation") < 20 {
 		c.Inconclusive("only %d images strictly inside an operation", c.Counter("images_strictly_inside_an_operation"))
